@@ -530,6 +530,19 @@ pub fn replay_edge(edge: &Value, prop: &str, rep: &mut Report) {
                     why.push("index-container-not-accounted".into());
                     detail = json!({"stack_used": total, "region_used": region_used, "spec_index_bytes": want});
                 }
+                // clear keeps every allocation: no reported capacity may shrink (compared as a total, because the
+                // number of callbacks is not part of the contract)
+                if path.last().map(|o| opname(o) == "clear").unwrap_or(false) {
+                    let (before, p0) = run(subj, &path[..path.len() - 1]);
+                    if p0.is_none() {
+                        let cb: usize = before.heap().iter().map(|p| p.1).sum();
+                        let ca: i64 = obs["caps"].as_array().map(|a| a.iter().map(|c| c.as_i64().unwrap_or(0)).sum()).unwrap_or(0);
+                        if ca < cb as i64 {
+                            why.push("capacity-shrank-on-clear".into());
+                            detail = json!({"capacity_before": cb, "capacity_after": ca});
+                        }
+                    }
+                }
             }
         }
         "C08" => {
